@@ -472,8 +472,8 @@ echs_instant_utc(echs_instant_t i, echs_tzob_t zob)
 	zif_t z;
 
 	i = echs_instant_detach_tzob(i);
-	if (UNLIKELY(echs_instant_all_day_p(i))) {
-		/* just do fuckall */
+	if (UNLIKELY(echs_instant_all_day_p(i) || echs_nul_instant_p(i))) {
+		/* just do fuckall, and no instant stays no instant */
 		;
 	} else if (LIKELY((z = __tzob_zif(zob)) != NULL)) {
 		time_t loc = __inst_to_epoch(i);
@@ -491,8 +491,8 @@ echs_instant_loc(echs_instant_t i, echs_tzob_t zob)
 	zif_t z;
 
 	i = echs_instant_detach_tzob(i);
-	if (UNLIKELY(echs_instant_all_day_p(i))) {
-		/* just do fuckall */
+	if (UNLIKELY(echs_instant_all_day_p(i) || echs_nul_instant_p(i))) {
+		/* just do fuckall, and no instant stays no instant */
 		;
 	} else if (LIKELY((z = __tzob_zif(zob)) != NULL)) {
 		time_t nix = __inst_to_epoch(i);
